@@ -24,7 +24,8 @@ LeavesOf(t, p) ==
 ErrsOf(r) == IF "errs" \in DOMAIN r THEN r.errs ELSE {r.err}
 TextOK(g, r)  == IF IsE(r) THEN ("err" \in DOMAIN g /\ g.err = r.err) ELSE ("ok" \in DOMAIN g /\ g.ok = r.ok)
 HasOK(g, r)   == IF IsE(r) THEN "err" \in DOMAIN g ELSE ("ok" \in DOMAIN g /\ g.ok = r.ok)
-TypedOK(g, r) == IF IsE(r) THEN ("err" \in DOMAIN g /\ g.err \in ErrsOf(r))
+TypedOK(g, r) == IF "skip" \in DOMAIN g THEN TRUE      \* (the whole Unpack of a cyclic world with operators: see the driver)
+                 ELSE IF IsE(r) THEN ("err" \in DOMAIN g /\ g.err \in ErrsOf(r))
                  ELSE ("leaves" \in DOMAIN g /\ ToSet(g.leaves) = LeavesOf(r.ok, ""))
 
 ReadOK(D, W, rd) == /\ TextOK(rd.str, GetString(D, W, rd.name))
